@@ -284,8 +284,26 @@ class _Capture:
 
     def __init__(self):
         self.calls: list = []
+        self.mark_mismatch: list = []     # (text, stored before, stored after, expected after)
+        self.mark_sets = 0
 
     def wrap(self, tag):
+        from openpectus.lang.exec import tags_impl
+        if isinstance(tag, tags_impl.MarkTag):
+            # mark texts reach the archive through MarkTag.set_value ("Append value to existing value"): the text must be
+            # stored unchanged - alone, or behind the texts not archived yet and the module's separator
+            orig_set = tag.set_value
+
+            def set_value(val, tick_time, *a, **k):
+                before = str(tag.value or "")
+                r = orig_set(val, tick_time, *a, **k)
+                if isinstance(val, str):
+                    self.mark_sets += 1
+                    want = val if before == "" else before + tags_impl.MARK_SEPARATOR + val
+                    if str(tag.value or "") != want:
+                        self.mark_mismatch.append((val, before, str(tag.value or ""), want))
+                return r
+            tag.set_value = set_value
         orig = tag.archive
 
         def archive():
@@ -297,6 +315,15 @@ class _Capture:
     def take(self):
         c, self.calls = self.calls, []
         return c
+
+
+def _mark_text_violations(A, cap, case, out, classes):
+    if cap.mark_sets:
+        classes.add("mark-texts-set")
+    for val, before, after, want in cap.mark_mismatch[:1]:
+        out.append(Violation("mark-text:" + _dominant(A, [val]),
+                             "Mark text %r set while the not yet archived mark value was %r: the tag now holds %r, expected %r (the text unchanged, "
+                             "appended with the separator)" % (val, before, after, want), case))
 
 
 # ---- read back + compare ------------------------------------------------------------------------------
@@ -532,6 +559,7 @@ def run_standalone(case):
             classes.add("has-skipped-tag")
         for r in runs:
             nontrivial |= _compare_run(A, r, case, out, classes)
+        _mark_text_violations(A, cap, case, out, classes)
     return out, sorted(classes), nontrivial
 
 
@@ -637,6 +665,7 @@ def run_engine(case):
             classes.add("runs:%d" % min(len(runs), 3))
             for r in runs:
                 nontrivial |= _compare_run(A, r, case, out, classes)
+            _mark_text_violations(A, cap, case, out, classes)
         finally:
             engine.cleanup()
     return out, sorted(classes), nontrivial
@@ -695,7 +724,9 @@ _interval_e = st.sampled_from([0, 0.05, 0.3, 1.0])
 _runlog = st.lists(st.tuples(_T16, st.integers(0, 1000), st.one_of(st.none(), st.integers(0, 1000))), max_size=3)
 _kind_s = st.sampled_from(["plain", "plain", "plain", "select", "skip", "reading"])
 _kind_e = st.sampled_from(["plain", "plain", "plain", "select", "skip"])
-_line_kind = st.sampled_from(["mark", "mark", "mark", "batch", "block", "wait"])
+_line_kind = st.sampled_from(["mark", "mark", "mark", "batch", "block", "wait", "simulate", "simoff"])
+_sim_tag = st.sampled_from(["Run Counter", "Run Counter", "Base"])   # archived system tags a method can simulate
+_sim_val = st.sampled_from(["3", "7", "0", "12"])
 _wait = st.sampled_from(["0.2", "0.5", "1"])
 _n_lines, _n_inner, _n_ticks = st.integers(1, 6), st.integers(0, 2), st.integers(5, 40)
 _second = st.sampled_from([False, False, True])
@@ -765,6 +796,10 @@ def engine_cases(draw):
             lines.append("Batch: " + draw(_arg))
         elif k == "wait":
             lines.append("Wait: %ss" % draw(_wait))
+        elif k == "simulate":
+            lines.append("Simulate: %s = %s" % (draw(_sim_tag), draw(_sim_val)))
+        elif k == "simoff":
+            lines.append("Simulate off: %s" % draw(_sim_tag))
         else:
             lines.append("Block: " + draw(_arg))
             for _ in range(draw(_n_inner)):
